@@ -120,6 +120,16 @@ def make_input(call, ci, sh):
     n = call["n"]
     size = call.get("result_size", 0)
     items = [(ci, i, item_duration(call, i)) + ((size,) if size else ()) for i in range(n)]
+    if call.get("twins") or call.get("exc_results"):
+        # twins: every item is followed by an equal-but-different one (index as float: == and same hash, other type) and f
+        # reports the type it saw; exc_results: f RETURNS (does not raise) an exception object for every fifth item
+        flags = ("T" if call.get("twins") else "") + ("E" if call.get("exc_results") else "")
+        out = []
+        for ci_, i, dur in [(x[0], x[1], x[2]) for x in items]:
+            out.append((ci_, i, dur, 0, flags))
+            if call.get("twins"):
+                out.append((ci_, float(i), 0, 0, flags))
+        items = out
     if call.get("nones"):
         # None is a legitimate data item (a missing value the functor knows how to handle): f(None) is None
         out = []
@@ -512,6 +522,10 @@ def _compact(y, call):
     size = call.get("result_size", 0)
     if size and isinstance(y, tuple) and len(y) == 3:
         return (y[0], y[1], "OK" if y[2] == "r" * size else f"BAD({len(y[2])})")
+    if isinstance(y, BaseException):
+        return ("EXC", type(y).__name__, str(y))
+    if (call.get("twins") or call.get("exc_results")) and isinstance(y, tuple) and len(y) == 3:
+        return (y[0], repr(y[1]), y[2])
     return y
 
 
@@ -520,9 +534,14 @@ def _simple_functor(sh):
         if x is None:
             return None
         call, idx, dur = x[:3]
-        sh.log("item", call=call, idx=idx)
+        sh.log("item", call=call, idx=int(idx))
         if dur:
             sh.nap(dur)
+        flags = x[4] if len(x) > 4 else ""
+        if flags:
+            if "E" in flags and int(idx) % 5 == 0 and not isinstance(idx, float):
+                return ValueError(f"e{call}:{idx}")           # returned, not raised
+            return (call, idx, type(idx).__name__)
         return (call, idx, "r" * x[3]) if len(x) > 3 else (call, idx)     # large results fill the result pipe
     return f
 
@@ -670,6 +689,23 @@ def value_findings(case, result):
         if not rec.get("completed"):
             continue        # the run ended inside this call (deadlock): not a value verdict
         ys = [tuple(y) if isinstance(y, (list, tuple)) else y for y in rec["yields"]]
+        if call.get("twins") or call.get("exc_results"):
+            want_seq = []
+            for i in range(call["n"]):
+                if call.get("exc_results") and i % 5 == 0:
+                    want_seq.append(("EXC", "ValueError", f"e{ci}:{i}"))
+                else:
+                    want_seq.append((ci, repr(i), "int"))
+                if call.get("twins"):
+                    want_seq.append((ci, repr(float(i)), "float"))
+            got_seq = [tuple(y) if isinstance(y, (list, tuple)) else y for y in rec["yields"]]
+            if got_seq != want_seq:
+                k = next((j for j, (a, b) in enumerate(zip(got_seq, want_seq)) if a != b), min(len(got_seq), len(want_seq)))
+                out.append(("wrong-value", f"call {ci} ({_cd(call)}, {'equal-but-different twin items' if call.get('twins') else ''}"
+                            f"{' f returns exception objects' if call.get('exc_results') else ''}): result #{k} is "
+                            f"{got_seq[k] if k < len(got_seq) else 'missing'}, f(x) is {want_seq[k] if k < len(want_seq) else 'nothing'} "
+                            f"({len(got_seq)} results, {len(want_seq)} expected)"))
+            continue
         if call.get("nones"):
             want_seq = []
             for i in range(call["n"]):
